@@ -325,6 +325,12 @@ pub fn fork(kind: ForkKind, cfg_a: &Cfg, cfg_b: &Cfg, head_a: &[Op], head_b: &[O
                 }
             }
         }
+        // (only once the new connection has started: what the query answers while no connection
+        // exists is not pinned)
+        if kind == ForkKind::Fresh && a.w.m.st != St::Disc && b.w.m.st != St::Disc && a.w.ep.vacancy() != b.w.ep.vacancy() {
+            let v = Violation { props: vec!["C10", "C12"], class: "reused-object-differs-from-fresh/vacancy".into(), msg: format!("after step {i} of the new connection ({:?}): vacancy {:?} on the reused object, {:?} on a fresh one", op, a.w.ep.vacancy(), b.w.ep.vacancy()), step: i };
+            return ForkResult { viol: Some(v), a, b };
+        }
         if kind == ForkKind::Fresh && i + 1 == hs && a.w.m.st != St::Connected && b.w.m.st != St::Connected {
             // no new session came into being on either object (e.g. both refuse the handshake
             // for a reason the model agrees with): nothing to compare
